@@ -5,6 +5,8 @@ use crate::report::{Run, Tier};
 pub mod c01;
 pub mod c02;
 pub mod c03;
+pub mod c04;
+pub mod c05;
 pub mod c10;
 pub mod c14;
 pub mod c15;
@@ -14,6 +16,8 @@ pub fn run(id: &str, tier: Tier) -> i32 {
         "C01" => { let r = Run::new("C01", tier); c01::run(&r); r }
         "C02" => { let r = Run::new("C02", tier); c02::run(&r); r }
         "C03" => { let r = Run::new("C03", tier); c03::run(&r); r }
+        "C04" => { let r = Run::new("C04", tier); start_watchdog("C04"); c04::run(&r); r }
+        "C05" => { let r = Run::new("C05", tier); start_watchdog("C05"); c05::run(&r); r }
         "C10" => { let r = Run::new("C10", tier); c10::run(&r); r }
         "C14" => { let r = Run::new("C14", tier); c14::run(&r); r }
         "C15" => { let r = Run::new("C15", tier); c15::run(&r); r }
@@ -25,12 +29,26 @@ pub fn run(id: &str, tier: Tier) -> i32 {
     run.finish()
 }
 
+/// non-termination becomes a verdict: report the case that has been running too long and exit 1
+fn start_watchdog(id: &'static str) {
+    crate::watch::start(move |what| {
+        let path = format!("{}/replays/{}-hang.json", crate::report::VERIF_DIR, id);
+        let _ = std::fs::create_dir_all(format!("{}/replays", crate::report::VERIF_DIR));
+        let _ = std::fs::write(&path, serde_json::json!({"property": id, "summary": "case did not terminate within the watchdog limit", "case": {"op": "hang", "input": what}}).to_string());
+        println!("VIOLATION property={} replay={}", id, path);
+        println!("  a single case has been running for more than {} s: {:?}", crate::watch::LIMIT_S, what);
+        std::process::exit(1);
+    });
+}
+
 pub fn replay_case(id: &str, op: &str, case: &serde_json::Value) -> Result<(), String> {
     match (id, op) {
         (_, "enum_roundtrip") => c01::replay_case(case),
         (_, "lexical_roundtrip") => c02::replay_case(case),
         (_, "components") | (_, "lexical_components") => c14::replay_case(case),
         (_, "conversions_enum") | (_, "conversions_lexical") => c15::replay_case(case),
+        (_, "enum_parse_total") | (_, "parse_error_grid") => c04::replay_case(case),
+        (_, "lexical_parse_total") | (_, "fold_total") => c05::replay_case(case),
         (_, "meaning") => c10::replay_case(case),
         (_, "pipelines_agree") | (_, "vocab_table") => c03::replay_case(case),
         _ => Err(format!("no replayer for property {id} op {op:?}")),
